@@ -49,15 +49,29 @@ def r1(ctx: Ctx) -> None:
     loc = ("a", ("g", "Rectangle"), "StogLocation")
     want = {"NORTH": 1, "SOUTH": 2, "EAST": 3, "WEST": 4}
     got = {}
-    for cnd in atoms_of(c, lambda x: x[0] == "if" and x[1][0] == "cmp" and x[1][1] == "seq"):
-        side = [y for y in (cnd[1][2], cnd[1][3]) if y[0] == "a" and y[1] == loc]
-        if side:
-            apps = [a for a in cnd[2] if a[0] == "expr" and a[1][0] == "c" and a[1][1][0] == "a" and a[1][1][2] == "append" and a[1][1][1][0] == "s"]
-            if apps and apps[0][1][1][1][2][0] == "k":
-                got[side[0][2]] = apps[0][1][1][1][2][2][0]
-            sets = [a for a in cnd[2] if a[0] == "set" and a[2][0] == "tuple" and len(a[2][1]) == 5]
-            if sets and side[0][2] == "TRUNK":
-                got["TRUNK"] = 0 if all(sets[0][2][1][k] == ("s", sets[0][1], k_num(k)) for k in range(1, 5)) else -1
+    # the dispatch is evaluated for every location in turn (an if / elif chain, a table lookup, any order of the tests):
+    # what is done with the rectangle on every path that location can take
+    from framelint.peval import traces, fold as _fold
+    from .common import const_tables
+    tables = const_tables(ctx, f)
+    rect_loops = [lp for lp in atoms_of(c, lambda x: x[0] == "for" and len(x) == 5 and isinstance(x[2], tuple) and x[2][:1] == ("a",) and x[2][2] == "rectangles")]
+    if len(rect_loops) == 1:
+        lp = rect_loops[0]
+        here = ("a", lp[1], "location")
+        for role in ["TRUNK", "NORTH", "SOUTH", "EAST", "WEST"]:
+            body = Sigma(raw_subst={here: ("a", loc, role), **tables}).apply(lp[3])
+            slots = set()
+            for lits, effs, out in traces(body, keep_sets=True):
+                done = None
+                for st in effs:
+                    if st[0] == "expr" and st[1][0] == "c" and st[1][1][0] == "a" and st[1][1][2] == "append" and st[1][1][1][0] == "s":
+                        k = _fold(st[1][1][1][2])
+                        done = k[2][0] if k[0] == "k" and k[1] == "num" else -1
+                    elif st[0] == "set" and len(st) == 3 and st[2][0] == "tuple" and len(st[2][1]) == 5:
+                        done = 0 if all(st[2][1][k] == ("s", st[1], k_num(k)) for k in range(1, 5)) else -1
+                slots.add(done)
+            if len(slots) == 1 and None not in slots:
+                got[role] = slots.pop()
     ctx.site(f.where, "role -> slot table", table=got)
     if got != {**want, "TRUNK": 0}:
         ctx.report(f.where, f"role-slots {sorted(got.items())}", "netlist_to_utils does not file the rectangles as (trunk, north list, south list, east list, west list)",
